@@ -119,7 +119,12 @@ def finish(prop, tier, seed, obligations, infos, rtc, crashes, wall):
             path = os.path.join(d, 'rtc_' + sanitize(key) + '.json')
             dump(path, {'kind': 'rtc', 'property': prop, 'driver': rtc.get('driver', prop),
                         'key': key, 'what': f['what'], 'case': f['case']})
-            violations.append((key, os.path.relpath(path, VERIF), ''))
+            # an aborted driver (exception / no return inside the library) names the failing call
+            # and carries the stack, but no input to replay
+            noinput = isinstance(f.get('case'), dict) and \
+                f['case'].get('kind') in ('uncaught-exception', 'no-return')
+            violations.append((key, os.path.relpath(path, VERIF),
+                               ' no-failing-input-found' if noinput else ''))
 
     # a lost/unknown obligation is covered when the bounded driver of the property ran cleanly
     fallback_ok = bool(rtc) and not rtc.get('crashed') and rtc.get('evaluations', 0) > 0
